@@ -3,10 +3,10 @@ CONSTANTS
   Roles = {"server", "client"}
   MaxFrames = 3
   DataLens = {0, 126}
-  PingLens = {0, 1}
+  PingLens = {0}
   CloseLens = {0}
   MaxReads = 99
-  MaxWrites = 1
+  MaxWrites = 0
   WriteLens = {126}
   MaxCloses = 1
   Defects = {}
